@@ -330,6 +330,66 @@ def run_containers(res, spec_, rng):
         L1, L2 = workload.load(raw), workload.load(raw)
         alias_scan(res, L1, L2, "Project:same-bytes", desc)
         differential(res, L2, L1, "same-bytes", "Project", rng, spec_["edits"], desc)
+    # patterns re-created field by field from another one (attr.evolve and the like: "the same pattern, a bit different"),
+    # deep-copied and pickled ones, in another project: the two are independent
+    import copy
+    import pickle
+    for how in ("evolve", "evolve-then-image", "deepcopy", "pickle"):
+        for attached in (False, True):
+            A_ = api.Pattern(tracks=3, lines=4, name="verse")
+            if attached:
+                api.Project().attach_pattern(A_)
+            for ln in range(4):
+                A_.data[ln][ln % 3].vel = 10 + ln
+            try:
+                if how.startswith("evolve"):
+                    kw = {}
+                    for f_ in type(A_).__attrs_attrs__:
+                        if f_.init:
+                            kw[getattr(f_, "alias", None) or f_.name.lstrip("_")] = getattr(A_, f_.name)
+                    kw["project"] = None
+                    B_ = type(A_)(**kw)
+                    if how == "evolve-then-image":
+                        B_.raw_data = A_.raw_data
+                else:
+                    B_ = copy.deepcopy(A_) if how == "deepcopy" else pickle.loads(pickle.dumps(A_))
+            except Exception as e:
+                res.count("pattern_copy_unusable")
+                res.hist("pattern_copy_unusable_why", f"{how}:{type(e).__name__}")
+                continue
+            res.count("pattern_copies")
+            alias_scan(res, A_, B_, f"Pattern:{how}", {"type": "Pattern", "copy": how})
+            pattern_differential(res, A_, B_, how, rng, {"type": "Pattern", "copy": how, "attached": attached})
+            pattern_differential(res, B_, A_, how + "-reverse", rng, {"type": "Pattern", "copy": how, "attached": attached})
+    # a module that belongs to one project is offered to another one through every public spelling of "attach", also with the
+    # loader's own keyword: refused, both projects as before
+    from rv.errors import ModuleOwnershipError as _MOE2
+    for spelling in ("attach", "attach-loading", "iadd", "new_module-parent"):
+        P1, P2 = api.Project(), api.Project()
+        owned = P1.new_module(api.m.Amplifier, name="owned")
+        owned >> P1.output
+        P2.new_module(api.m.Filter)
+        before_pair = (_snapshot_and_bytes(P1), _snapshot_and_bytes(P2))
+        res.count("foreign_attach_spellings")
+        try:
+            if spelling == "attach":
+                P2.attach_module(owned)
+            elif spelling == "attach-loading":
+                P2.attach_module(owned, loading=True)
+            elif spelling == "iadd":
+                P2 += owned
+            else:
+                P2.new_module(lambda **kw: owned)
+            accepted = owned in P2.modules
+        except _MOE2:
+            accepted = False
+        except Exception:
+            accepted = owned in P2.modules
+        if accepted:
+            res.violation(f"C17:leak:Project:shared-module:{spelling}", f"a module owned by one project was taken into another one ({spelling}): it now lives in both", {"spelling": spelling})
+            continue
+        if (_snapshot_and_bytes(P1), _snapshot_and_bytes(P2)) != before_pair:
+            res.violation(f"C17:leak:Project:refused-attach-changed-state:{spelling}", f"a refused attach ({spelling}) changed one of the two projects", {"spelling": spelling})
     qa, qb = api.Pattern(tracks=3, lines=4), api.Pattern(tracks=3, lines=4)
     qa.data, qb.data
     alias_scan(res, qa, qb, "Pattern:fresh", {"type": "Pattern"})
